@@ -90,3 +90,23 @@ Proof.
   exists w_deleted. exists (VRec 6%positive 10 10). vm_compute. split; [reflexivity|]. split; [discriminate|reflexivity].
 Qed.
 Print Assumptions C11_validator_record_refuted_1.
+
+(* ---- maturity (step level) ---- *)
+Theorem C11_maturity_unstake_entry : forall s v d a ro h m pb ff s',
+  step s (OUnstake v d a false ro h m pb ff) = (s', true) ->
+  mat s' = <[h + m := mat_at s (h + m) ++ [(d, a)]]> (mat s) /\ dbnd s' = dbnd s.
+Proof. exact unstake_entry. Qed.
+Print Assumptions C11_maturity_unstake_entry.
+
+(* the withdrawable amount grows only in the end-block hook — for non-negative amounts (partial:
+   complement of C11.negative_amount_deliver); refuted by WITHDRAW -7 *)
+Theorem C11_maturity_withdrawable_partial : forall s o d',
+  trig_negative o = false ->
+  match o with OStake _ _ _ _ _ _ _ _ _ | OUnstake _ _ _ _ _ _ _ _ _ | OWithdraw _ _ _ _ _ | OBegin _ => True | _ => False end ->
+  zget (dbnd (fst (step s o))) d' <= zget (dbnd s) d'.
+Proof. exact withdrawable_not_growing_in_tx. Qed.
+Print Assumptions C11_maturity_withdrawable_partial.
+Theorem C11_maturity_withdrawable_refuted_1 : exists s o d',
+  trig_negative o = true /\ zget (dbnd (fst (step s o))) d' > zget (dbnd s) d'.
+Proof. exists empty_state, (OWithdraw 3 4 (-7) false false), 4%positive. split; vm_compute; reflexivity. Qed.
+Print Assumptions C11_maturity_withdrawable_refuted_1.
